@@ -16,7 +16,7 @@ BOUNDARY_SIZES = (
 def sizes(max_size: int = 1048577, boundary_weight: int = 2):
     small = st.integers(0, 300)
     medium = st.integers(0, min(6000, max_size))
-    options = [small] * 6 + [medium] * 2
+    options = [small] * 6 + [medium] * 2 + [st.sampled_from([0, 0, 1, 2])]
     bounds = [b for b in BOUNDARY_SIZES if b <= max_size]
     options += [st.sampled_from(bounds)] * boundary_weight
     if max_size > 6000:
